@@ -220,11 +220,11 @@ Qed.
 
 Lemma in_exact : forall o x l b,
   array_mem o x l = Some b ->
-  (b = true <-> exists y, In y l /\ same_printed o x y = Some true).
+  (b = true <-> exists y, In y l /\ same_value o x y = Some true).
 Proof.
   intros o x l. induction l as [|y l IH]; intros b H; simpl in H.
   - inversion H; subst. split; [discriminate|]. intros [y [[] _]].
-  - destruct (same_printed o x y) as [[|]|] eqn:Hs; try discriminate.
+  - destruct (same_value o x y) as [[|]|] eqn:Hs; try discriminate.
     + inversion H; subst. split; [|reflexivity].
       intros _. exists y. split; [left; reflexivity | exact Hs].
     + specialize (IH b H). split.
